@@ -90,7 +90,7 @@ Section Shedder.
       if high_thru s2 now then (true, snd (still_hot s2 now)) else (false, s2)
     else (false, s2).
 
-  (* Allow, :119-132 : (admitted, state) ; an admitted request's promise remembers `now` *)
+  (* Allow, :119-132 : (let_in, state) ; an let_in request's promise remembers `now` *)
   Definition allow (s : shed) (now : Z) (over : bool) : bool * shed :=
     let (d, s1) := should_drop s now over in
     if d then (false, set_dropped s1 true)
